@@ -293,7 +293,8 @@ def body(ctx):
                     continue
                 shards.append(('enum', {'named': named, 'variants': variants, 'first': first}))
     st_item, en_item = '{ATTRS} struct S { a: i32 }', '{ATTRS} enum E { A, #[literal(1)] B }'
-    for names in (['map', 'map', 'map'], ['from', 'map', 'from'], ['try_into', 'try_into', 'try_into']):
+    # mixed fallibility: `from` and `try_from` cover the same kinds but are different names — nothing may be copied between them
+    for names in (['map', 'map', 'map'], ['from', 'map', 'from'], ['try_into', 'try_into', 'try_into'], ['from', 'try_from', 'from'], ['try_map', 'map', 'try_map'], ['into', 'try_into', 'try_into']):
         for own in ([['vars', 'update'], [], []], [['quick_return'], [], ['vars']], [['vars'], ['update'], []]):
             it = st_item
             nm2 = [n if not n.startswith('try') else n for n in names]
